@@ -298,3 +298,104 @@ Fixpoint arc4_encode (t : ty) (v : val) {struct t} : option bytes :=
   | TDynBytes => dyn_array_enc false false (uint_enc 8) v
   | TTxn _ | TRef _ => None
   end.
+
+(* ------------------------------------------------------------------------------------------ *)
+(* decoding                                                                                    *)
+(* ------------------------------------------------------------------------------------------ *)
+(* [arc4_decode t bs] = Some v  only if  bs is exactly the encoding of v  (it re-encodes the
+   candidate and compares; Proofs/ABISpecProof.v [decode_sound]).  The candidate comes from the
+   structural reader [dec_struct] below: heads are walked left to right (bools share bytes, a static
+   member takes [static_len] bytes, a dynamic member a uint16 offset); a dynamic member's bytes run
+   from its offset to the next dynamic member's offset (or to the end).
+   Result spelling: address / string / StaticBytes / DynamicBytes give [VBytes]; other arrays and
+   tuples [VList].  That encoding followed by decoding returns the value is validated against
+   algosdk and by round trips on every C19 run (not proved). *)
+Definition slice (bs : bytes) (p n : N) : option bytes := bsub bs p (p + n).
+Definition rd_u16 (bs : bytes) (p : N) : option N := option_map be_decode (slice bs p 2).
+
+Definition get_bit (bs : bytes) (p i : N) : option bool :=
+  match slice bs p 1 with
+  | Some [c] => Some (N.testbit (b2n c) (7 - i))
+  | _ => None
+  end.
+
+Inductive hslot : Type := HBit (pos idx : N) | HStat (pos len : N) | HDynOff (off : N).
+
+(* member descriptor: is bool, is dynamic, static length *)
+Fixpoint heads (ms : list (bool * bool * N)) (bs : bytes) (pos bitidx : N) : option (list hslot) :=
+  match ms with
+  | [] => Some []
+  | (true, _, _) :: r =>
+      option_map (cons (HBit pos bitidx))
+                 (if bitidx =? 7 then heads r bs (pos + 1) 0 else heads r bs pos (bitidx + 1))
+  | (false, false, len) :: r =>
+      let p := if bitidx =? 0 then pos else pos + 1 in
+      option_map (cons (HStat p len)) (heads r bs (p + len) 0)
+  | (false, true, _) :: r =>
+      let p := if bitidx =? 0 then pos else pos + 1 in
+      obind (rd_u16 bs p) (fun o => option_map (cons (HDynOff o)) (heads r bs (p + 2) 0))
+  end.
+
+Fixpoint next_dyn (slots : list hslot) (dflt : N) : N :=
+  match slots with
+  | [] => dflt
+  | HDynOff o :: _ => o
+  | _ :: r => next_dyn r dflt
+  end.
+
+Fixpoint dec_slots (slots : list hslot) (decs : list (bytes -> option val)) (bs : bytes) : option (list val) :=
+  match slots, decs with
+  | [], [] => Some []
+  | HBit p i :: sr, _ :: dr =>
+      obind (get_bit bs p i) (fun b => option_map (cons (VBool b)) (dec_slots sr dr bs))
+  | HStat p l :: sr, d :: dr =>
+      obind (slice bs p l) (fun seg => obind (d seg) (fun v => option_map (cons v) (dec_slots sr dr bs)))
+  | HDynOff o :: sr, d :: dr =>
+      obind (bsub bs o (next_dyn sr (blen bs))) (fun seg =>
+      obind (d seg) (fun v => option_map (cons v) (dec_slots sr dr bs)))
+  | _, _ => None
+  end.
+
+Definition decode_seq (ms : list (bool * bool * N * (bytes -> option val))) (bs : bytes) : option (list val) :=
+  obind (heads (map fst ms) bs 0 0) (fun slots => dec_slots slots (map snd ms) bs).
+
+Definition uint_dec (bits : N) (bs : bytes) : option val :=
+  if valid_uint_bits bits && (blen bs =? bits / 8) then Some (VUint (be_decode bs)) else None.
+
+Definition bool_dec (bs : bytes) : option val :=
+  match bs with
+  | [c] => if b2n c =? 128 then Some (VBool true) else if b2n c =? 0 then Some (VBool false) else None
+  | _ => None
+  end.
+
+Definition dyn_bytes_dec (bs : bytes) : option val :=
+  obind (rd_u16 bs 0) (fun n => option_map VBytes (slice bs 2 n)).
+
+Fixpoint dec_struct (t : ty) (bs : bytes) {struct t} : option val :=
+  match t with
+  | TBool => bool_dec bs
+  | TByte => uint_dec 8 bs
+  | TUint bits => uint_dec bits bs
+  | TAddress => option_map VBytes (slice bs 0 32)
+  | TStaticBytes n => option_map VBytes (slice bs 0 n)
+  | TString | TDynBytes => dyn_bytes_dec bs
+  | TStaticArray e n =>
+      option_map VList
+        (decode_seq (repeat (is_bool e, is_dynamic e, static_len e, dec_struct e) (N.to_nat n)) bs)
+  | TDynArray e =>
+      obind (rd_u16 bs 0) (fun n =>
+      obind (bsub bs 2 (blen bs)) (fun rest =>
+        option_map VList
+          (decode_seq (repeat (is_bool e, is_dynamic e, static_len e, dec_struct e) (N.to_nat n)) rest)))
+  | TTuple _ ts =>
+      option_map VList
+        (decode_seq (map (fun x => (is_bool x, is_dynamic x, static_len x, dec_struct x)) ts) bs)
+  | TTxn _ | TRef _ => None
+  end.
+
+Definition arc4_decode (t : ty) (bs : bytes) : option val :=
+  obind (dec_struct t bs) (fun v =>
+    match arc4_encode t v with
+    | Some bs' => if bytes_eqb bs' bs then Some v else None
+    | None => None
+    end).
